@@ -7,6 +7,7 @@ CONSTANTS
   C3 <- QC3
   RTok <- QRTok
   RLen = 5
+  RMidTok <- QRMid
   RLongTok <- QRLong
   SBits <- AllBits
 INVARIANT TtlFoldAgrees
